@@ -16,7 +16,21 @@ impl Engine for HbE2e {
     fn step(&mut self, toks: &[&str], out: &mut Vec<String>) {
         match toks {
             // run <server-heartbeat-s> <client-heartbeat-s> <mode> <observe-ms>
-            ["run", sh, ch, mode, observe] => {
+            ["run", sh, ch, mode, observe, extra @ ..] => {
+                // optional: openok-delay=MS step-delay=MS timeout=MS (the client's connection_timeout)
+                // tail=HEX,K (bytes right behind OpenOk, the first K of them in the same write)
+                let opt = |name: &str| extra.iter().find_map(|e| e.strip_prefix(name).and_then(|v| v.strip_prefix('=')));
+                let openok_delay: u64 = opt("openok-delay").and_then(|v| v.parse().ok()).unwrap_or(0);
+                let step_delay: u64 = opt("step-delay").and_then(|v| v.parse().ok()).unwrap_or(0);
+                let conn_timeout: Option<u64> = opt("timeout").and_then(|v| v.parse().ok());
+                let (tail, tail_k): (Vec<u8>, usize) = match opt("tail") {
+                    Some(v) => {
+                        let mut it = v.split(',');
+                        let bytes = it.next().and_then(crate::unhex).unwrap_or_default();
+                        (bytes, it.next().and_then(|k| k.parse().ok()).unwrap_or(0))
+                    }
+                    None => (Vec::new(), 0),
+                };
                 let (sh, ch, observe): (u16, u16, u64) = match (sh.parse(), ch.parse(), observe.parse()) {
                     (Ok(a), Ok(b), Ok(c)) => (a, b, c),
                     _ => return out.push("bad-op".into()),
@@ -25,12 +39,12 @@ impl Engine for HbE2e {
                 let stop = Arc::new(AtomicBool::new(false));
                 let silent = Arc::new(AtomicBool::new(false));
                 let seen = Arc::new(Mutex::new(Seen::default()));
-                let cfg = AutoConfig { ch_max: 0, frame_max: 131072, heartbeat: sh, confirms: false, eof_after_close_ok: true, close_ok_delay_ms: if *mode == "slowclose" { observe } else { 0 }, silent: silent.clone() };
+                let cfg = AutoConfig { ch_max: 0, frame_max: 131072, heartbeat: sh, confirms: false, eof_after_close_ok: true, close_ok_delay_ms: if *mode == "slowclose" { observe } else { 0 }, step_delay_ms: step_delay, open_ok_delay_ms: openok_delay, tail: tail.clone(), tail_with_open_ok: tail_k, silent: silent.clone() };
                 let bt = {
                     let (p, s, st) = (peer.clone(), stop.clone(), seen.clone());
                     std::thread::spawn(move || broker::auto_broker(p, cfg, s, st))
                 };
-                let options = ConnectionOptions::<Auth>::default().heartbeat(ch);
+                let options = ConnectionOptions::<Auth>::default().heartbeat(ch).connection_timeout(conn_timeout.map(Duration::from_millis));
                 let t_open = Instant::now();
                 let conn = match Connection::insecure_open_stream(stream, options, ConnectionTuning::default()) {
                     Ok(c) => c,
